@@ -39,6 +39,8 @@ func main() {
 		os.Exit(cmdCheck(os.Args[2:]))
 	case "list":
 		cmdList(os.Args[2:])
+	case "snaplocals":
+		cmdSnapLocals(os.Args[2:])
 	case "sigs":
 		cmdSigs(os.Args[2:])
 	default:
